@@ -11,7 +11,10 @@ import (
 	"os"
 	"sort"
 	"strings"
+	"sync/atomic"
+	"syscall"
 	"time"
+	"unsafe"
 )
 
 // ---------------------------------------------------------------- PRNG
@@ -354,9 +357,52 @@ func MergeSigs(paths []string) (int, error) {
 	return n, nil
 }
 
+// beat is the heartbeat the driver watches from outside the process: beat[0]
+// counts entries into and exits from guarded library calls, beat[1] is the
+// number of guarded calls in progress. The driver (not this process: a timer
+// goroutine here would switch off the runtime's deadlock detector) reads it
+// through a shared mapping together with the CPU time of the process; a call
+// in progress with an unchanged counter over a long stretch of CPU time is a
+// library call that does not return.
+var beat = new([2]uint64)
+
+// AttachBeat maps the 16-byte file at path and moves the heartbeat into it.
+func AttachBeat(path string) error {
+	f, err := os.OpenFile(path, os.O_RDWR|os.O_CREATE, 0o644)
+	if err != nil {
+		return err
+	}
+	defer f.Close()
+	if err := f.Truncate(16); err != nil {
+		return err
+	}
+	m, err := syscall.Mmap(int(f.Fd()), 0, 16, syscall.PROT_READ|syscall.PROT_WRITE, syscall.MAP_SHARED)
+	if err != nil {
+		return err
+	}
+	beat = (*[2]uint64)(unsafe.Pointer(&m[0]))
+	return nil
+}
+
+// Enter and Leave bracket one short operation on the library for the heartbeat,
+// where a monitor does its own recovering.
+func Enter() {
+	atomic.AddUint64(&beat[0], 1)
+	atomic.AddUint64(&beat[1], 1)
+}
+
+func Leave() {
+	atomic.AddUint64(&beat[1], ^uint64(0))
+	atomic.AddUint64(&beat[0], 1)
+}
+
 // Guard runs f and converts a panic into (true, message).
 func Guard(f func()) (panicked bool, msg string) {
+	atomic.AddUint64(&beat[0], 1)
+	atomic.AddUint64(&beat[1], 1)
 	defer func() {
+		atomic.AddUint64(&beat[1], ^uint64(0))
+		atomic.AddUint64(&beat[0], 1)
 		if r := recover(); r != nil {
 			panicked = true
 			msg = fmt.Sprint(r)
